@@ -2,7 +2,7 @@
    Every client loop takes an ARBITRARY list of layouts (one per iteration / regrouping round):
    the layout may change between the partial requests of one call. `sorted st` is the store
    invariant (established by [] and preserved by every mutating operation, see the _sorted parts). *)
-From Verif Require Import RawKV.Model RawKV.ProofsStore RawKV.ProofsLoops RawKV.ProofsBatch RawKV.ProofsRounds RawKV.ProofsCas RawKV.ProofsTop RawKV.Sequence.
+From Verif Require Import RawKV.Model RawKV.ProofsStore RawKV.ProofsLoops RawKV.ProofsBatch RawKV.ProofsRounds RawKV.ProofsCas RawKV.ProofsWire RawKV.ProofsPlans RawKV.ProofsTop RawKV.Sequence RawKV.ProofsReg RawKV.ProofsFam.
 
 (* get / put (with ttl) / delete: the map laws; the ttl never influences what Get returns *)
 Theorem C11_get_put_delete : forall st k v ttl k',
@@ -186,13 +186,66 @@ Theorem C11_cas_at_most_one_winner : forall k pe steps st,
 Proof. exact cas_at_most_one_winner. Qed.
 Print Assumptions C11_cas_at_most_one_winner.
 
-(* whole sequences: ANY list of calls, each carrying ANY layout schedule, returns the results and
-   leaves the map that the same calls produce on one ordered map (spec_op mentions no layout) *)
+(* whole sequences: ANY list of calls, each carrying ANY schedule — layouts per partial request, Served /
+   Bounced / Dropped sub-batches, DeleteRange requests that fail, the limit and atomic-mode error paths —
+   returns the results and leaves the map of spec_ops: complete calls act as on one ordered map (no
+   layout appears), a call in which a request fails reports the error and leaves the fold of the effects
+   of the requests its schedule serves (bput_plan / bdel_plan / drange_plan are store-free) *)
 Theorem C11_sequence : forall digest ops st rs st',
   sorted st -> run_ops digest st ops = Some (rs, st') ->
   (rs, st') = spec_ops digest st ops /\ sorted st'.
 Proof. exact run_ops_spec. Qed.
 Print Assumptions C11_sequence.
+
+(* the request stream of BatchPutWithTTL: the literal three-slice AppendBatches cuts where put_chunks cuts
+   and every batch carries, position by position, the (key, last value, last ttl) triples of its keys;
+   nothing is lost, duplicated or misaligned, for the code's chunker and for any partition *)
+Theorem C11_batch_put_wire :
+  (forall kvs ks, append_batches kvs ks = map (batch3_of kvs) (put_chunks kvs ks)) /\
+  (forall kvs ks,
+     flat_map triples (append_batches kvs ks) = map (fun k => (k, kv_of kvs k, ttl_of kvs k)) ks /\
+     Forall (fun b => length (b_vals b) = length (b_keys b) /\ length (b_ttls b) = length (b_keys b)) (append_batches kvs ks)) /\
+  (forall kvs bs,
+     flat_map (fun ks => triples (batch3_of kvs ks)) bs = map (fun k => (k, kv_of kvs k, ttl_of kvs k)) (concat bs)).
+Proof. exact c11_batch_put_wire. Qed.
+Print Assumptions C11_batch_put_wire.
+
+(* limit > MaxRawKVScanLimit is refused before any request; limit 0, start = end, start > end send nothing *)
+Theorem C11_scan_edge_cases :
+  (forall st Ls s e limit, client_scan st Ls s e limit = None <-> max_raw_kv_scan_limit < N.of_nat limit) /\
+  (forall st Ls s e limit, client_rscan st Ls s e limit = None <-> max_raw_kv_scan_limit < N.of_nat limit) /\
+  (forall st Ls s e, scan st Ls s e 0 = Some [] /\ rscan st Ls s e 0 = Some []) /\
+  (forall digest st Ls s e limit, e <> [] -> ~ klt s e ->
+     scan st Ls s e limit = Some [] /\ drange_loop st Ls s e = Some st /\ cksum digest st Ls s e = Some cks_zero) /\
+  (forall st Ls s e limit, ~ klt e s -> rscan st Ls s e limit = Some []).
+Proof. exact c11_scan_edge_cases. Qed.
+Print Assumptions C11_scan_edge_cases.
+
+(* concurrent single-key calls: in any commit order every key is ONE register with CAS, independent of the
+   other keys (what the linearizability search of the check assumes as its sequential specification) *)
+Theorem C11_register_per_key : forall k steps st,
+  let '(rs, st') := store_run st steps in
+  let calls := on_key k steps rs in
+  map snd calls = fst (reg_run (srv_get st k) (map fst calls)) /\
+  srv_get st' k = snd (reg_run (srv_get st k) (map fst calls)).
+Proof. exact register_per_key. Qed.
+Print Assumptions C11_register_per_key.
+
+(* column families: what family c holds in the end is what the calls naming c produce on one map *)
+Theorem C11_families_independent : forall digest tops f rs f',
+  (forall c, sorted (f c)) -> run_tagged digest f tops = Some (rs, f') ->
+  forall c, f' c = snd (spec_ops digest (f c) (calls_of c tops)) /\ sorted (f' c).
+Proof. exact families_independent. Qed.
+Print Assumptions C11_families_independent.
+
+(* API v2: the store holds prefix ++ key; Checksum over [prefix++s, prefix++e) is the checksum of the PREFIXED
+   pairs of [s,e): digest and byte count include the keyspace prefix, the pair count does not change *)
+Theorem C11_checksum_v2 : forall digest pfx st Ls s e res,
+  sorted st -> e <> [] ->
+  cksum digest (prefix_store pfx st) Ls (pfx ++ s) (pfx ++ e) = Some res ->
+  res = cks_list digest (prefix_store pfx (range st s e)).
+Proof. exact cksum_v2. Qed.
+Print Assumptions C11_checksum_v2.
 
 (* ---------------------------------------------------------------- non-vacuity *)
 Definition ex_store : store :=
@@ -230,8 +283,8 @@ Proof. vm_compute. reflexivity. Qed.
 Example ex_sequence :
   option_map fst (run_ops (fun _ _ => 0) []
     [OBatchPut [([97], mkEntry [1] 0); ([99], mkEntry [3] 0); ([97], mkEntry [2] 0)] [([[98]], all_served)];
-     OCas [98] None [7];
-     ODeleteRange [97; 0] [] [[[98]]; [[99]]; []];
+     OCas true [98] None [7];
+     ODeleteRange [97; 0] [] [Some [[98]]; Some [[99]]; Some []];
      OScan [] [] 5 [[]]])
   = Some [RUnit; RCas None true; RUnit; RPairs [([97], [2])]].
 Proof. vm_compute. reflexivity. Qed.
@@ -254,4 +307,23 @@ Proof. vm_compute. reflexivity. Qed.
 Example ex_cas_race :
   fst (run_cas ex_store [([101], None, [1]); ([101], None, [2]); ([101], Some [1], [3]); ([101], None, [4])])
   = [(None, true); (Some [1], false); (Some [1], true); (Some [3], false)].
+Proof. vm_compute. reflexivity. Qed.
+(* a sequence with a half-failed batch put, a refused scan and a CAS without atomic mode *)
+Example ex_sequence_outcomes :
+  option_map (fun r => (fst r, map kv (snd r))) (run_ops (fun _ _ => 0) ex_store
+    [OBatchPut [([97], mkEntry [5] 0); ([99], mkEntry [6] 0)] [([[98]], fun g _ => if bytes_eqb g [] then Served else Dropped)];
+     OScan [] [] 20000 [];
+     OCas false [97] None [1];
+     ODeleteRange [98] [] [Some [[99]]; None];
+     OScan [] [] 9 [[]]])
+  = Some ([RErr; RErr; RErr; RErr; RPairs [([97], [5]); ([99], [3]); ([100], [4])]],
+          [([97], [5]); ([99], [3]); ([100], [4])]).
+Proof. vm_compute. reflexivity. Qed.
+Example ex_wire :
+  map triples (append_batches [([1], mkEntry [7] 3); ([2], mkEntry [8] 4); ([1], mkEntry [9] 5)] [[1]; [2]; [1]])
+  = [[([1], [9], 5); ([2], [8], 4); ([1], [9], 5)]].
+Proof. vm_compute. reflexivity. Qed.
+Example ex_register :
+  fst (store_run ex_store [([101], RegCas None [1]); ([97], RegGet); ([101], RegCas None [2]); ([101], RegDel); ([101], RegGet)])
+  = [ResCas None true; ResVal (Some [9]); ResCas (Some [1]) false; ResUnit; ResVal None].
 Proof. vm_compute. reflexivity. Qed.
